@@ -13,7 +13,7 @@ from ..core.grammar import grammar
 from ..core.model import AnchorMissing, Repo, class_methods, class_methods_n, dotted, strip_cast
 from ..core.report import Run
 
-LEVEL = "proof"
+LEVEL = "other"  # three recorded known findings of the compiled runner keep obligations open
 KINDS = ["T", "F", "E", "N"]
 
 
@@ -112,6 +112,10 @@ def check(repo: Repo, run: Run) -> None:
         "matching logical function with the matching neutral element. T5: no interpreter rule method lets a CELEvalError "
         "propagate as a raised exception (local effect analysis). Not enumerated: the kinds of failing sub-expressions (C04)."
     )
+    # T8: in compiled code every operand of &&, ||, ?: and every macro element is produced by result(); an exception
+    # that result() lets through (or that makes its message lookup fail) is never seen by the absorbing operator
+    # (instances shared with C03.X2)
+    run.borrow(repo, "C03", "C02.T8", lambda o: o["rule"] == "C03.X2", 6)
     ct = repo.mod("celtypes")
     ev = repo.mod("evaluation")
     # T1 -----------------------------------------------------------------
